@@ -66,7 +66,7 @@ def all_requests(M):
     return [(fs, ts, d) for fs in range(1, 2**M) for ts in range(1, 2**M) for d in (False, True)]
 
 
-def history_ob(M, prefix, oid, timeout=300, form=None, disc=None):
+def history_ob(M, prefix, oid, timeout=450, form=None, disc=None):
     n = 2**M - 1
     pre_code = "\n".join(f"    request(p, mods, E, {fs}, {ts}, {d}, {form})\n    if not good(p, E):\n        return False" for fs, ts, d, form in prefix)
     body = f"""
@@ -108,7 +108,7 @@ def obligations(tier, seed):
         a = rnd.choice(must)
         a = (a[0], a[1], False)
         b_ = rnd.choice(reqs)
-        obs.append(history_ob(M, [(a[0], a[1], False, rnd.randrange(3)), (b_[0], b_[1], b_[2], rnd.randrange(3))], f"k3.M3.{i}", timeout=300 if tier == "quick" else 600))
+        obs.append(history_ob(M, [(a[0], a[1], False, rnd.randrange(3)), (b_[0], b_[1], b_[2], rnd.randrange(3))], f"k3.M3.{i}", timeout=450 if tier == "quick" else 600))
     # reconnect after disconnect: a link is made and freed (on either end), then any request follows
     for j, pre in enumerate([[(2, 4, False, 0), (2, 4, True, 0)], [(2, 1, False, 1), (4, 1, False, 0), (2, 1, True, 2)], [(6, 1, False, 0), (2, 1, True, 0)]]):
         obs.append(history_ob(M, pre, f"reconnect.M3.{j}"))
